@@ -452,6 +452,12 @@ class AuditProbe(Harness):
         elif sc == 'gexgroup':
             kex, key = ['curve25519-sha256', 'diffie-hellman-group-exchange-sha256'], ['unknown-key-type']
             conns = [AE.Conn([BANNER, kexinit_pkt(kex, key)]), AE.Conn([BANNER, kexinit_pkt(kex, key), pkt])]
+        elif sc == 'nonutf8-name':
+            # well-formed KEXINIT whose cipher / language name-lists carry arbitrary bytes; the probes echo these lists back to the server
+            kex, key = ['diffie-hellman-group14-sha256', 'diffie-hellman-group-exchange-sha256'], ['ssh-rsa']
+            nm = b'aes256-ctr' + inp['t']
+            pl = AE.kexinit_payload(kex, key, nm, ['hmac-sha2-256'], lang=b'x' + inp['x'][:1])
+            conns = [AE.Conn([BANNER, AE.frame(pl)])] + [AE.Conn([BANNER, AE.frame(pl)], 'close') for _ in range(3)]
         elif sc == 'probe-kexinit':
             # the probe connection answers the banner, then arbitrary bytes instead of its KEXINIT
             kex, key = ['diffie-hellman-group14-sha256'], ['ssh-rsa']
@@ -546,6 +552,8 @@ def tasks(tier):
         T.append(AuditFirstConn(n, 1, 'close', True))
     for n in ((0, 1) if q else (0, 1, 2)):
         T.append(VersionFallback(n))
+    T.append(AuditProbe('nonutf8-name', 1))
+    T.append(AuditProbe('nonutf8-name', 0))
     for sc in ('hostkey-rsa', 'hostkey-ed25519', 'hostkey-via-gex', 'gexgroup', 'probe-kexinit'):
         for n in ((0, 4, 8) if q else (0, 3, 4, 7, 8, 12, 16)):
             T.append(AuditProbe(sc, n))
